@@ -18,7 +18,8 @@
 //! After every successful append the harness waits (polling EPSEQ) until the partition's confirmed sequence has
 //! reached the appended one; after every error reply it sends PING and records whether the connection still answers.
 //! Observed: the canonicalised replies joined by " | " (uuids -> symbols, clock timestamps -> T, event bodies
-//! compared with what was sent -> body=ok).
+//! compared with what was sent -> body=ok, transaction ids -> t<n> = the n-th accepted append when all events of
+//! that append, and only they, carry the uuid).
 use common::{Args, Out, Rng};
 use kameo::actor::{ActorRef, Spawn};
 use libp2p::identity::Keypair;
@@ -165,7 +166,10 @@ struct Session {
     keys: HashMap<Uuid, String>,          // uuid -> k<j> / d<n>
     eids: HashMap<Uuid, String>,          // uuid -> e<i>h<h> / g<n>
     gens: Vec<Uuid>,                      // generated ids in order of first appearance
-    txs: HashMap<Uuid, usize>,
+    appends: usize,                       // accepted appends so far = the ordinal of the next transaction
+    ev_append: HashMap<Uuid, usize>,      // event id -> ordinal of the append that created it
+    tx_by_append: HashMap<usize, Uuid>,   // the transaction id seen on events of that append
+    append_by_tx: HashMap<Uuid, usize>,
     bodies: HashMap<Uuid, Body>,
     pending: Vec<Body>,                   // bodies of the append in flight (event order)
     t0: u64,
@@ -178,7 +182,7 @@ impl Session {
         let mut keys = HashMap::new();
         for (j, h) in hd.keys.iter().enumerate() { keys.insert(key_uuid(j as u64, *h), format!("k{j}")); }
         for n in hd.dflt.keys() { keys.insert(default_key(*n), format!("d{n}")); }
-        Session { hd, keys, eids: HashMap::new(), gens: vec![], txs: HashMap::new(), bodies: HashMap::new(), pending: vec![], t0: now_ms() }
+        Session { hd, keys, eids: HashMap::new(), gens: vec![], appends: 0, ev_append: HashMap::new(), tx_by_append: HashMap::new(), append_by_tx: HashMap::new(), bodies: HashMap::new(), pending: vec![], t0: now_ms() }
     }
     fn key_of(&self, t: &str) -> Option<Uuid> { let j: usize = t.strip_prefix('k')?.parse().ok()?; Some(key_uuid(j as u64, *self.hd.keys.get(j)?)) }
     fn sym_key(&self, s: &str) -> String { s.parse::<Uuid>().ok().and_then(|u| self.keys.get(&u).cloned()).unwrap_or_else(|| format!("?{s}")) }
@@ -189,10 +193,14 @@ impl Session {
         self.gens.push(u); self.eids.insert(u, g.clone());
         (g, Some(u))
     }
-    fn sym_tx(&mut self, s: &str) -> String {
+    /// the transaction id of an event: `t<n>` = the n-th accepted append, provided all events of that append (and
+    /// only they) carry this uuid
+    fn sym_tx(&mut self, s: &str, event: Option<Uuid>) -> String {
         let Ok(u) = s.parse::<Uuid>() else { return format!("?{s}") };
-        let n = self.txs.len();
-        format!("t{}", *self.txs.entry(u).or_insert(n))
+        let Some(n) = event.and_then(|e| self.ev_append.get(&e).copied()) else { return "t?".into() };
+        let a = *self.tx_by_append.entry(n).or_insert(u);
+        let b = *self.append_by_tx.entry(u).or_insert(n);
+        if a == u && b == n { format!("t{n}") } else { format!("tMISMATCH{n}") }
     }
     fn sym_ts(&self, ms: i64, sent: Option<Option<u64>>) -> String {
         match sent {
@@ -217,7 +225,7 @@ impl Session {
         let V::Map(m) = v else { return format!("BADEVENT({v:?})") };
         let (id, idu) = self.sym_eid(&txt(field(m, "event_id")));
         let pk = self.sym_key(&txt(field(m, "partition_key")));
-        let tx = self.sym_tx(&txt(field(m, "transaction_id")));
+        let tx = self.sym_tx(&txt(field(m, "transaction_id")), idu);
         let st = txt(field(m, "stream_id"));
         let body = match idu.and_then(|u| self.bodies.get(&u).cloned()) {
             None => "unknown".to_string(),
@@ -244,6 +252,8 @@ impl Session {
                 let (id, idu) = self.sym_eid(&txt(field(m, "event_id")));
                 let b = self.pending.first().cloned();
                 if let (Some(u), Some(b)) = (idu, b.clone()) { self.bodies.insert(u, b); }
+                if let Some(u) = idu { self.ev_append.insert(u, self.appends); }
+                self.appends += 1;
                 let ts = self.sym_ts(int(field(m, "timestamp")), b.map(|b| b.ts));
                 let (pid, seq) = (int(field(m, "partition_id")), int(field(m, "partition_sequence")));
                 (format!("ok id={id} pk={} pid={pid} seq={seq} ver={} ts={ts}", self.sym_key(&txt(field(m, "partition_key"))), int(field(m, "stream_version"))), Some((pid as u16, seq as u64)))
@@ -257,10 +267,12 @@ impl Session {
                         let (id, idu) = self.sym_eid(&txt(field(em, "event_id")));
                         let b = self.pending.get(i).cloned();
                         if let (Some(u), Some(b)) = (idu, b.clone()) { self.bodies.insert(u, b); }
+                        if let Some(u) = idu { self.ev_append.insert(u, self.appends); }
                         let ts = self.sym_ts(int(field(em, "timestamp")), b.map(|b| b.ts));
                         evs.push(format!("{id}/{}/{}/{ts}", txt(field(em, "stream_id")), int(field(em, "stream_version"))));
                     }
                 } else { evs.push("BADEVENTS".into()); }
+                self.appends += 1;
                 let (pid, first, last) = (int(field(m, "partition_id")), int(field(m, "first_partition_sequence")), int(field(m, "last_partition_sequence")));
                 (format!("ok pk={} pid={pid} first={first} last={last} [{}]", self.sym_key(&txt(field(m, "partition_key"))), evs.join(",")), Some((pid as u16, last as u64)))
             }
@@ -450,8 +462,6 @@ fn split_case(line: &str) -> Option<(Header, Vec<Vec<&str>>)> {
     Some((hd, cmds))
 }
 
-fn free_port() -> u16 { std::net::TcpListener::bind("127.0.0.1:0").unwrap().local_addr().unwrap().port() }
-
 // ------------------------------------------------------------------ child: one (P,B) configuration per process
 fn child(a: &Args, out: &mut Out) {
     let lines: Vec<String> = std::fs::read_to_string(&a.rest[0]).unwrap().lines().map(|l| l.trim().to_string()).filter(|l| !l.is_empty()).collect();
@@ -479,11 +489,28 @@ fn child(a: &Args, out: &mut Out) {
     keep.push((dir, db));
     let shutdown = CancellationToken::new();
     let mut ports = [0u16; 2];
+    // Ports below the ephemeral range (nobody's bind(0) lands there), derived from our pid; `listen` returns at once
+    // when the port is taken, in which case the next candidate is tried. A port counts as ours only when it accepts
+    // connections while our listen task is still running.
+    let mut cand = 10_000u32 + (std::process::id() % 11_000) * 2;
     for (i, strict) in [false, true].into_iter().enumerate() {
-        let port = free_port();
-        ports[i] = port;
-        let srv = Server::new(cluster.clone(), caches.clone(), p, 1 << 20, strict, shutdown.clone());
-        rt.spawn(async move { let _ = srv.listen(("127.0.0.1", port)).await; });
+        let mut ok = false;
+        for _ in 0..200 {
+            let port = (10_000 + (cand - 10_000) % 22_000) as u16;
+            cand += 1;
+            let srv = Server::new(cluster.clone(), caches.clone(), p, 1 << 20, strict, shutdown.clone());
+            let h = rt.spawn(async move { srv.listen(("127.0.0.1", port)).await.map(|_| ()) });
+            let t = Instant::now();
+            let mut up = false;
+            while t.elapsed() < Duration::from_secs(20) && !h.is_finished() {
+                if TcpStream::connect(("127.0.0.1", port)).is_ok() { up = true; break; }
+                std::thread::sleep(Duration::from_millis(10));
+            }
+            std::thread::sleep(Duration::from_millis(30));
+            if up && !h.is_finished() { ports[i] = port; ok = true; break; }
+            h.abort();
+        }
+        if !ok { eprintln!("c22: no free port for the server"); out.flush(); std::process::exit(3); }
     }
     let mut first = true;
     for (hidx, l) in lines.iter().enumerate() {
